@@ -211,21 +211,6 @@ package nsqd
 //@   props C09
 //@   ensures[errors] result1 != nil ==> typedErr(result1)
 //@   onreturn cmdHandled := cmdHandled + 1
-//@ func (p *protocolV2) PUB(client *clientV2, params [][]byte) ([]byte, error)
-//@   trusted
-//@   props C09
-//@   ensures[errors] result1 != nil ==> typedErr(result1)
-//@   onreturn cmdHandled := cmdHandled + 1
-//@ func (p *protocolV2) MPUB(client *clientV2, params [][]byte) ([]byte, error)
-//@   trusted
-//@   props C09
-//@   ensures[errors] result1 != nil ==> typedErr(result1)
-//@   onreturn cmdHandled := cmdHandled + 1
-//@ func (p *protocolV2) DPUB(client *clientV2, params [][]byte) ([]byte, error)
-//@   trusted
-//@   props C09
-//@   ensures[errors] result1 != nil ==> typedErr(result1)
-//@   onreturn cmdHandled := cmdHandled + 1
 
 // IOLoop calls Exec only with at least the command word (bytes.Split never returns an empty slice).
 //@ func (p *protocolV2) Exec(client *clientV2, params [][]byte) ([]byte, error)
